@@ -18,7 +18,7 @@ MODULE = "ExprRoundTripMC"
 # deviations the TLA+ specification can predict (constant ImplDev); the others live in the harness
 SPEC_DEVS = ["float_int_print", "neg_desugar_mul", "dur_trunc_us", "hand_no_bitwise",
              "yacc_and_or_same_prec", "yacc_int_saturate"]
-HARNESS_DEVS = ["sortfield_unquoted", "fillvalue_nonfloat_dropped"]
+HARNESS_DEVS = ["sortfield_unquoted"]
 # mutation seeds / deviations and the invariant each must break (self-test)
 SELFTEST = {"print_drops_paren": "RoundTrip", "right_assoc": "PlanIsTree", "cmp_binds_tighter": "PlanIsTree",
             "float_int_print": "RoundTrip", "neg_desugar_mul": "RoundTrip", "dur_trunc_us": "RoundTrip",
